@@ -10,7 +10,10 @@
 // sends is a pending action, the explorer decides the order in which the loop
 // applies them (quiescence via testing/synctest), against harness actions:
 // Download calls, piece deliveries from a seeding peer, manual removal, idle
-// timeout ticks and shutdown.
+// timeout ticks and shutdown. Start-state dimension (StartStateScenarios, C17
+// only; Scenarios() is unchanged for C20): pieces already on disk when the
+// scheduler starts, and a remote peer that opens a connection through
+// kraken's accept path at any point, reviving a torrent that is only on disk.
 package schedh
 
 import (
@@ -245,6 +248,8 @@ func StartStateScenarios(thorough bool) []Scenario {
 		Scenario{Name: name("1 download + idle tick", 1), Downloads: 1, Incoming: true, Pre: 1, Tick: true, Bound: b},
 		Scenario{Name: name("1 download + shutdown", 1), Downloads: 1, Incoming: true, Pre: 1, Shutdown: true, Bound: b},
 		Scenario{Name: name("2 downloads", 1), Downloads: 2, Incoming: true, Pre: 1, Bound: min(b, 4)},
+		// the start-state dimension for the harness-attached seeder as well
+		Scenario{Name: "2 downloads + remove (1 of 2 pieces on disk)", Downloads: 2, Remove: true, Pre: 1, Bound: b},
 	)
 	if thorough {
 		for _, pre := range []int{0, 2} {
